@@ -105,6 +105,7 @@ static jv *cur_keys;
 static int keep_going;   /* fault-anywhere sweep: do not compare, never stop; only the final bookkeeping is judged */
 static int in_conc;
 static jv *soft_div;      /* an allocation-count-only difference seen earlier in this script */
+static int kept_ledger;   /* library allocations the driver keeps on the caller's behalf between calls (string sinks) */
 static int soft_offset, soft_offset_fd;
 static jv *trace;  /* array of observed records when --trace */
 
@@ -381,7 +382,7 @@ static jv *obs_key(const char *key, jv *call, long r, jv *extra)
   if (!strcmp(key, "dt")) return j_mkint(K->now - t_call);
   if (!strcmp(key, "blk")) return j_mkint(K->blocks > 0);
   if (!strcmp(key, "nfd")) return j_mkint(sk_nfds(0) - soft_offset_fd);
-  if (!strcmp(key, "nalloc")) return j_mkint(sk_nalloc() - soft_offset);
+  if (!strcmp(key, "nalloc")) return j_mkint(sk_nalloc() - soft_offset - kept_ledger);
   if (!strcmp(key, "st")) return child_states();
   if (!strcmp(key, "bad")) return j_mkint(rbad);
   if (!strcmp(key, "sig") || !strcmp(key, "reap") || !strcmp(key, "mon") || !strcmp(key, "created")) {
@@ -639,6 +640,17 @@ static int nest_sink(REPROC_STREAM stream, const uint8_t *buffer, size_t size, v
   return rec_sink(stream, buffer, size, &s->rec);
 }
 
+/* The caller's string of an earlier drain in this script, kept as a real caller would keep it: the next string sink of the
+ * same slot gets the SAME buffer, shortened in place to the initial length the script asks for (its prefix is 'I's then). */
+static char *kept_str[3];
+static void drop_kept(void)
+{
+  if (!K || !(kept_str[1] || kept_str[2])) { kept_ledger = 0; return; }
+  int was = K->in_api; K->in_api = 1;
+  for (int i = 0; i < 3; i++) if (kept_str[i]) { reproc_free(kept_str[i]); kept_str[i] = NULL; }
+  K->in_api = was; kept_ledger = 0;
+}
+
 static reproc_sink mk_sink(jv *spec, struct recsink *rs, int id, char **strp)
 {
   /* spec: ["rec", fail_at, fail_val] | ["str", initial_len] | ["discard"] | ["null"] | ["nofn"] */
@@ -650,7 +662,11 @@ static reproc_sink mk_sink(jv *spec, struct recsink *rs, int id, char **strp)
   }
   if (!strcmp(k, "str")) { /* ["str", initial length (-1: NULL), fail at call k (0: never)] */
     long n = spec->n > 1 ? spec->a[1]->i : -1;
-    if (n >= 0) { *strp = malloc((size_t) n + 1); memset(*strp, 'I', (size_t) n); (*strp)[n] = 0; } else *strp = NULL;
+    char *kp = kept_str[id];
+    int reusable = kp && n >= 0 && strlen(kp) >= (size_t) n;
+    for (long q = 0; reusable && q < n; q++) if (kp[q] != 'I') reusable = 0;
+    if (reusable) { if (sk_is_alloc(kp)) kept_ledger--; kept_str[id] = NULL; kp[n] = 0; *strp = kp; }
+    else if (n >= 0) { *strp = malloc((size_t) n + 1); memset(*strp, 'I', (size_t) n); (*strp)[n] = 0; } else *strp = NULL;
     struct strsink *s = &strsinks[id];
     s->rec.id = id; s->rec.calls = 0; s->rec.fail_at = 0; s->rec.fail_val = 0;
     s->lib = reproc_sink_string(strp);
@@ -923,9 +939,12 @@ static long do_call(jv *c, jv **extra)
       }
     if (!strcmp(k1, "str")) j_put(x, "str1", str_obs(s1, h));
     if (!strcmp(k2, "str") && !same) j_put(x, "str2", str_obs(s2, h));
-    int was = K->in_api; K->in_api = 1; /* release through the library's own function */
-    if (s1) reproc_free(s1);
-    if (s2 && !same) reproc_free(s2);
+    int was = K->in_api; K->in_api = 1; /* release through the library's own function - or keep for the next drain of this script */
+    char *ss[3] = { NULL, s1, same ? NULL : s2 };
+    for (int id = 1; id <= 2; id++) if (ss[id]) {
+      if (r == 0 && !kept_str[id] && fn[0] == 'd') { kept_str[id] = ss[id]; if (sk_is_alloc(ss[id])) kept_ledger++; }
+      else reproc_free(ss[id]);
+    }
     K->in_api = was;
     *extra = x;
     return r;
@@ -1450,7 +1469,7 @@ static void run_line(char *line, int idx)
 {
   const char *err;
   j_reset();
-  trace = NULL; cur_call = NULL; cur_keys = NULL; soft_div = NULL; soft_offset = 0; soft_offset_fd = 0; in_conc = 0;
+  trace = NULL; cur_call = NULL; cur_keys = NULL; soft_div = NULL; soft_offset = 0; soft_offset_fd = 0; in_conc = 0; drop_kept();
   if (!strncmp(line, "<<\"BEH\", \"", 10)) {
     /* TLC PrintT of <<"BEH", ToJson(hist)>>: a TLA+ string literal; undo its escaping in place */
     char *o = line, *q = line + 10;
